@@ -206,12 +206,19 @@ class TracksController:
         Returns: An Action object that performed the update
         """
         actions: list[ActionGroup | Action] = []
-        for i, node in enumerate(nodes):
-            actions.append(
-                UpdateNodeAttrs(
-                    self.tracks, node, {key: val[i] for key, val in attributes.items()}
+        try:
+            for i, node in enumerate(nodes):
+                actions.append(
+                    UpdateNodeAttrs(
+                        self.tracks,
+                        node,
+                        {key: val[i] for key, val in attributes.items()},
+                    )
                 )
-            )
+        except Exception:
+            # a later node was refused: undo the updates already applied to earlier ones
+            ActionGroup(self.tracks, actions)._rollback()
+            raise
         return ActionGroup(self.tracks, actions)
 
     def _add_edges(self, edges: Iterable[Edge], force: bool = False) -> None:
